@@ -54,6 +54,7 @@ def n_is_store(mods):
     return 'store' in mods
 
 
+_FUNPOST = re.compile(r'^\(= \{(\w+)\} (.*)\)$', re.S)
 _PH = re.compile(r'\{([A-Za-z_][A-Za-z0-9_.]*!?)\}')
 
 
@@ -1487,6 +1488,12 @@ class Executor:
                 st.assume(EQ('(h_ans %s)' % h.e, '(ASemidet %s)' % res))
             return [(st, h)]
         if self.modname == 'engine' and name == 'Functor' and len(args) == 2 and args[0].sort == 'Str' \
+                and args[1].sort == 'PyList' and all(i.sort == 'Term' for i in args[1].meta['items']):
+            lst = 'nil'
+            for i in reversed(args[1].meta['items']):
+                lst = '(cons %s %s)' % (i.e, lst)
+            return [(st, SV('Term', '(TFun %s %s)' % (args[0].e, lst)))]
+        if self.modname == 'engine' and name == 'Functor' and len(args) == 2 and args[0].sort == 'Str' \
                 and args[1].sort == 'TList':
             return [(st, SV('Term', '(TFun %s %s)' % (args[0].e, args[1].e)))]
         if self.modname == 'engine' and name == 'Atom' and len(args) == 1 and args[0].sort == 'Str':
@@ -1646,6 +1653,18 @@ class Executor:
                 ex['result'] = r
                 res = self.mk_ret(c.ret, r, st)
             for en in c.ensures:
+                m = _FUNPOST.match(en) if getattr(self.theory, 'FUNCTIONAL_POST', False) else None
+                if m and (m.group(1) == 'result' or m.group(1) in c.modifies) and '{%s}' % m.group(1) not in m.group(2) \
+                        and c.kind == 'fn':
+                    # a defining equation of the post-state / result: substitute instead of naming it (same meaning, the
+                    # solvers need no equality reasoning under recursive functions then)
+                    val = self.fmt_c(m.group(2), ex)
+                    ex[m.group(1)] = val
+                    if m.group(1) == 'result':
+                        res = self.mk_ret(c.ret, val, st)
+                    else:
+                        st.comp[m.group(1)] = val
+                    continue
                 st.assume(self.fmt_c(en, ex))
             if self.theory:
                 self.theory.after_call(self, st)
